@@ -668,6 +668,18 @@ func literalSemantics(res *report.Result, o *onto.Onto) {
 			res.Violate(fmt.Sprintf("count-value|%v", c), fmt.Sprintf("totalItems %v: Get() = %d", c, got), M{"check": "C12", "doc": doc})
 		}
 	}
+	// counts beyond the accessor's integer type: either not recognised (kept as the raw value) or returned exactly
+	for _, c := range []float64{9223372036854775808, 1e19, 18446744073709551616, 1e30} {
+		for _, pm := range [][3]string{{"Collection", "totalItems", "ActivityStreamsTotalItems"}, {"OrderedCollectionPage", "startIndex", "ActivityStreamsStartIndex"}, {"Image", "height", "ActivityStreamsHeight"}} {
+			p, doc := get(pm[0], pm[1], c, pm[2])
+			res.Case(fmt.Sprintf("count-huge|%s|%v", pm[1], c))
+			if p != nil && method(p, "IsXMLSchemaNonNegativeInteger").Call(nil)[0].Bool() {
+				if got := method(p, "Get").Call(nil)[0].Int(); float64(got) != c {
+					res.Violate(fmt.Sprintf("count-value|%s|beyond-int64", pm[1]), fmt.Sprintf("%s %v: recognised as a count with Get() = %d", pm[1], c, got), M{"check": "C12", "doc": doc})
+				}
+			}
+		}
+	}
 	for _, c := range []float64{-1, 1.5, -0.5, 0.1, 1e-9, -2147483648} {
 		p, doc := get("Collection", "totalItems", c, "ActivityStreamsTotalItems")
 		res.Case(fmt.Sprintf("count|%v", c))
